@@ -233,3 +233,30 @@ def quest_fp(h):
     lam = float(w.sum())
     phi = lam ** 4 - (a_ + b_) * lam ** 2 - c_ * lam + k_
     h.check('phi(sum of weights) == 0 on consistent data', h.eq(phi, 0.0))
+
+
+STRATA_Q = [(Fr(1, 2), Fr(1, 2), Fr(1, 2), Fr(1, 2)), (Fr(1, 5), Fr(2, 5), Fr(2, 5), Fr(4, 5)), (Fr(2, 9), Fr(4, 9), Fr(5, 9), Fr(6, 9)),
+            (Fr(10, 11), Fr(1, 11), Fr(2, 11), Fr(4, 11))]
+
+
+@harness('C04/SAAM-FAMC.strata', functions=[FF + 'saam:SAAM.estimate', FF + 'famc:FAMC.estimate', FF + 'saam:SAAM._compute_all'], max_paths=16, algcert_s=40.0,
+         bounds='four exact rational attitudes in general position (strata), dip 53.13 degrees, symbolic positive scalings of both measurements')
+def saam_famc_strata(h):
+    """SAAM / FAMC on consistent data at four rational general-position attitudes with symbolic scalings"""
+    h.definedness = 'assume'
+    s1 = h.real('s1', 0.1, 20.0)
+    s2 = h.real('s2', 0.1, 80.0)
+    h.pool(s1, s2)
+    g = np.array([0, 0, 1], dtype=object) if h.sym else np.array([0.0, 0.0, 1.0])
+    mref = np.array([Fr(3, 5), 0, Fr(4, 5)], dtype=object) if h.sym else np.array([0.6, 0.0, 0.8])
+    for k, qv in enumerate(STRATA_Q):
+        q = np.array(list(qv), dtype=object) if h.sym else np.array([float(x) for x in qv])
+        R = rot.R_of_q(q)
+        a = s1 * (R.T @ g)
+        m = s2 * (R.T @ mref)
+        for tag, est, exp in (('SAAM', flt.SAAM().estimate, rot.qconj(q)), ('FAMC', flt.FAMC().estimate, q)):
+            qe = np.array(est(a.copy(), m.copy()))
+            h.out(f'{tag}{k}', qe, mod_sign=True)
+            h.check(f'{tag} at stratum {k}: the documented quaternion (+-conj(q_true) for SAAM, +-q_true for FAMC)', h.same_quat(qe, exp) & h.is_unit(qe))
+        Qb = np.array(flt.SAAM(np.array([a, a]), np.array([m, m])).Q)
+        h.check(f'SAAM batch at stratum {k}: +-conj(q_true)', h.same_quat(Qb[1], rot.qconj(q)) & h.is_unit(Qb[1]))
